@@ -141,11 +141,19 @@ class ScalarFunction:
 
         elif grad in FD_METHODS:
 
+            def fun_wrapped_fd(x):
+                # approx_derivative shrinks a stencil to fit into the bounds, but
+                # x0 + (ub - x0) does not round-trip: a stencil point can land one ulp
+                # outside the box. Project the (real) stencil points onto the box.
+                if not np.iscomplexobj(x):
+                    x = np.clip(x, *finite_diff_options["bounds"])
+                return fun_wrapped(x)
+
             def update_grad():
                 self._update_fun()
                 self.ngev += 1
                 self.g = approx_derivative(
-                    fun_wrapped, self.x, f0=self.f, **finite_diff_options
+                    fun_wrapped_fd, self.x, f0=self.f, **finite_diff_options
                 )
                 # a variable with lb == ub cannot be perturbed within its bounds, so
                 # approx_derivative returns nan for it (0 / 0). It is fixed and its
